@@ -17,6 +17,28 @@ Families (all cases are in the case format of harness/c11.py, so the C11 exact-r
            order differs from the index order, or in index order with permuted labels; asymmetric initial states as
            dicts, 40% of them strict local minima (which T = 0 must return unchanged).  The model (`c12_anneal`) is fed
            the mapping read by index — the data the code reads — never the insertion order of the dicts
+  xeq      labelled inputs (dict, QUSO, PUSO, PCSO, QUBO, PUBO, PCBO; all four functions) whose integer labels are written as
+           int / float / bool / numpy.int64 from one occurrence to the next (1 == 1.0 == True: ONE variable), 60% of the
+           monomials of degree >= 2 given twice in spellings that ordering_key stores under DIFFERENT keys, e.g.
+           {(1.0, 0): -2, (0, 1): 1} — the conversion to the integer matrix must add the two entries.  `xeq-zero`: schedule
+           of zeros + initial state (40% strict local minima): value <= initial value, value == model(state), a strict
+           minimum is returned unchanged, and (in order, <= 4 variables) the final state must be reachable by the reference
+           sweep "flip when dE < 0, keep when dE > 0" in SOME fixed visiting order of the variables (the property fixes
+           the order only for Matrix models); `xeq-replay`: T > 0 schedules, value == model(state) and domain.  The Lean
+           model is compared exactly where it is label-parametric (spin functions; anneal_pubo on a dict) — see
+           c11.model_is_label_parametric — the other calls are judged by the oracle only
+  schedtype explicit schedules whose entries are numbers that are not Python floats but equal the float they stand for: int,
+           bool, Fraction, Decimal, numpy.int64/int32/uint8/float32/float16/float64/bool_, objects with only __index__
+           (only exactly representable values), uniform or mixed within one schedule, as list / tuple / ndarray / iterator;
+           all four functions, all input kinds, both visiting orders, T > 0 / zeros / mixed: (i) exact replay through the
+           Lean model run on the equal float schedule under the same seed, (ii) direct oracle: the call and the call with
+           [float(t) for t in schedule] (equal arguments in Python's ==, same seed) must return identical results
+  accept   SUPPORTING STATISTICAL CLAUSE, every run: one-variable models started in their ground state, ONE sweep at a
+           positive temperature T given as float / int (4 and 1000) / bool / Fraction / Decimal / numpy.int64 / numpy.float32 /
+           __index__ object, coefficient T/4 so that the only possible move is uphill by dE = T/2: 2000 anneals per call,
+           all four functions x both visiting orders x 9 (type, T) settings = 72 calls; the number of accepted flips must be within
+           t = sqrt(n ln(2/1e-11) / 2) = 161.3 of n exp(-1/2) = 1213.1 (Hoeffding: false-alarm probability <= 1e-11 per
+           call, < 1e-9 per run, for an ideal uniform generator)
   reheat   SUPPORTING STATISTICAL CLAUSE, every run: non-monotone schedules (a zero-temperature stretch followed by positive
            temperatures) started from a strict local minimum, fixed and generated 2-4-variable models, 400 seeds each: the
            number of runs that end in the initial state must be within 6 sigma of n * p0, p0 the exact probability under
@@ -35,7 +57,9 @@ from .common import Labels, fs, exc_name
 
 CEXT = "plain"
 RULE = ("calls of anneal_quso/puso/qubo/pubo on dict / labelled / Matrix inputs (2..8 variables, dyadic coefficients, "
-        "no cancelled terms; labelled objects with the automatic or a user-set permuted mapping), explicit schedules of 0..80 sweeps (T>0, T=0, mixed, cooling) and 'linear'/'geometric', "
+        "no cancelled terms; labelled objects with the automatic or a user-set permuted mapping; labels equal across types "
+        "(1 / 1.0 / True / numpy.int64(1)) with monomials stored under two keys; explicit schedules whose entries are int / bool / "
+        "Fraction / Decimal / numpy scalars / __index__ objects equal to floats), explicit schedules of 0..80 sweeps (T>0, T=0, mixed, cooling) and 'linear'/'geometric', "
         "initial_state or random start, in_order or random visiting, seeds in [0, 2^31), num_anneals 1..3; "
         "zero/tiefree: schedules of zeros with a supplied initial state; non-trivial = the C kernel ran on >= 2 spins "
         "with >= 1 term of degree >= 2 and a non-empty schedule; distinct = distinct case JSON")
@@ -244,6 +268,153 @@ def gen_tiefree(rng):
             "init": gen_init(rng, fn, kind, ids), "in_order": True,
             "seed": rng.randrange(2 ** 31), "num_anneals": rng.choice([1, 2])}
 
+# ------------------------------------------------------------------ families xeq (labels equal across types), schedtype
+
+LAB_KINDS = {fn: [k for k in KINDS[fn] if k not in MATRIX] for fn in KINDS}
+
+def gen_xeq(rng, zero, maxdur=40):
+    fn = rng.choice(["quso", "quso", "puso", "qubo", "qubo", "pubo"])
+    kind = rng.choice(LAB_KINDS[fn])
+    while True:
+        ops, spl, ids = c11.gen_xeq_ops(rng, fn, kind, nmax=4 if zero else 6)
+        c = {"family": "anneal", "c12": "xeq-zero" if zero else "xeq-replay", "fn": fn, "kind": kind, "shape": "xeq",
+             "ops": ops, "spell": spl, "labels": "xeq", "num": rng.choice(["int", "frac", "float"])}
+        if c11.xeq_collisions(c) or rng.random() < 0.1:
+            break
+    if zero:
+        c["sched"] = {"t": "explicit", "Ts": [0.0] * rng.choice([0, 1, 1, 2, 3, 5])}
+        c["init"] = gen_init(rng, fn, kind, ids)
+        if rng.random() < 0.4:
+            lm = local_minimum(rng, c, ids)
+            if lm is not None:
+                c["init"] = lm
+    else:
+        c["sched"] = gen_schedule(rng, maxdur)
+        c["init"] = gen_init(rng, fn, kind, ids) if rng.random() < 0.5 else None
+    c.update(in_order=rng.random() < 0.6, seed=rng.randrange(2 ** 31), num_anneals=rng.choice([1, 2, 3]))
+    return c
+
+def gen_schedtype(rng, maxdur):
+    c = gen_replay(rng, maxdur)
+    c["c12"] = "schedtype"
+    c["sched"] = c11.gen_typed_schedule(rng, min(maxdur, 40))
+    if c["init"] is None and rng.random() < 0.6:
+        ids = sorted({i for k, _ in c["ops"] for i in k})
+        c["init"] = gen_init(rng, c["fn"], c["kind"], ids)
+    return c
+
+def float_twin(case):
+    """the same call with the schedule [float(t) for t in schedule] (== the typed schedule, element by element)"""
+    s = {k: v for k, v in case["sched"].items() if k not in ("types", "container")}
+    return dict(case, sched=s)
+
+def schedtype_oracle(case):
+    """direct oracle (ii): equal arguments, same seed => identical results (the real code twice; no model involved)"""
+    a, b = plain_call(case), plain_call(float_twin(case))
+    if a != b:
+        sch = c11.typed_schedule(case["sched"])
+        return ("C12:schedule-entry-type",
+                "anneal_%s(..., schedule=%r, in_order=%s, seed=%r) returns %s, but the same call with the equal schedule %r "
+                "(every entry == the float it stands for) returns %s: with a fixed seed, calls with equal arguments must "
+                "return identical results, and a temperature is a number, not a Python type"
+                % (case["fn"], list(sch) if not isinstance(sch, (list, tuple)) else sch, case["in_order"], case["seed"],
+                   str(a)[:300], [float(t) for t in case["sched"]["Ts"]], str(b)[:300]))
+    return None
+
+def value_oracle(case, canon, res, L):
+    """xeq-replay: domain, spin flag and value == model(state), written from the property text (C11's clause, needed here
+    because the dynamics ran on whatever matrix the front end built)"""
+    if "err" in canon:
+        return ("C12:exception", "anneal_%s raised %s on a valid call" % (case["fn"], canon["err"]))
+    spin = case["fn"] in SPIN_FNS
+    poly = model_poly(case)
+    variables = {i for k in poly for i in k}
+    if len(res) != case["num_anneals"]:
+        return ("C12:count", "returned %d results for num_anneals=%d" % (len(res), case["num_anneals"]))
+    for idx, r in enumerate(res):
+        st = {L.ident(k): int(v) for k, v in r.state.items()}
+        if set(st) != variables:
+            return ("C12:domain", "result %d: state domain %s, variables %s" % (idx, sorted(st), sorted(variables)))
+        if Fraction(r.value) != energy(poly, st):
+            return ("C12:value", "result %d: value %s but the model %s evaluates to %s at its state %s"
+                    % (idx, r.value, describe(case), energy(poly, st), st))
+    return None
+
+def describe(case):
+    """the concrete Python model of a case (for messages)"""
+    try:
+        obj, _ = c11.build_obj(dict(case, mapping=None))
+        return "%s(%r)" % (case["kind"], dict(obj)) if case["kind"] != "dict" else repr(obj)
+    except Exception:
+        return repr(case["ops"])
+
+def perm_sweep_ok(poly, x0, st, sweeps, spin, limit=4):
+    """in-order visiting at T = 0 of a labelled model: the variables are visited in ONE fixed order per sweep, which the
+    property does not name — the final state must be reachable by the reference sweep in some order"""
+    ids = sorted(x0)
+    if len(ids) > limit:
+        return True
+    target = tuple(sorted(st.items()))
+    for order in itertools.permutations(ids):
+        if target in reference_sweeps(poly, x0, list(order), sweeps, spin, False):
+            return True
+    return False
+
+# ------------------------------------------------------------------ family accept (supporting statistical clause)
+
+ACCEPT_TS = [("float", 4.0), ("int", 4.0), ("int", 1000.0), ("bool", 1.0), ("frac", 2.5), ("decimal", 1.5),
+             ("npint64", 3.0), ("npfloat32", 2.5), ("index", 2.0)]
+ACCEPT_N = 2000
+ACCEPT_DELTA = 1e-11        # per call; 72 calls per run: < 1e-9
+
+def accept_case(fn, ty, T, in_order, seed):
+    return {"c12": "accept", "fn": fn, "type": ty, "T": T, "in_order": in_order, "seed": seed, "n": ACCEPT_N}
+
+def run_accept(case):
+    """one call, n anneals of a one-variable model from its ground state, one sweep at temperature T (an entry of Python
+    type case["type"]): the single possible move is uphill by dE = T/2, so the number of runs that end flipped is a sum of
+    n independent indicators of probability exp(-dE/T) = exp(-1/2) under the property's Metropolis rule"""
+    import qubovert.sim as sim
+    from qubovert.utils import QUSOMatrix, PUSOMatrix
+    fn, T, n = case["fn"], float(case["T"]), case["n"]
+    c = T / 4                                   # dyadic
+    if fn in SPIN_FNS:
+        model = (QUSOMatrix if fn == "quso" else PUSOMatrix)({(0,): c})      # H = c z: ground state z = -1, flip costs 2c
+        init, flipped_val = {0: -1}, 1
+    else:
+        model = {(0,): -2 * c}                                                # -2c x: ground state x = 1, flip costs 2c
+        init, flipped_val = {0: 1}, 0
+    entry = c11.typed_entry(T, case["type"])
+    with warnings.catch_warnings():
+        warnings.simplefilter("ignore")
+        res = getattr(sim, "anneal_" + fn)(model, num_anneals=n, initial_state=init, schedule=[entry],
+                                           in_order=case["in_order"], seed=case["seed"])
+    k = sum(1 for r in res if r.state[0] == flipped_val)
+    p = math.exp(-0.5)
+    t = math.sqrt(n * math.log(2 / ACCEPT_DELTA) / 2)
+    summ = {"fn": fn, "type": case["type"], "T": T, "in_order": case["in_order"], "anneals": n, "accepted": k,
+            "expected": round(n * p, 1), "bound": round(t, 1)}
+    if len(res) != n or abs(k - n * p) > t:
+        return (("C12:distribution",
+                 "STATISTICAL CLAUSE: anneal_%s(%r, num_anneals=%d, initial_state=%r, schedule=[%r], in_order=%s, seed=%d): the "
+                 "only possible move is uphill by dE = %s and must be accepted with probability exp(-dE/T) = exp(-1/2) = %.4f, "
+                 "i.e. %.1f of %d runs; observed %d (Hoeffding bound for a false alarm at probability 1e-11: +-%.1f)"
+                 % (fn, dict(model), n, init, entry, case["in_order"], case["seed"], 2 * c, p, n * p, n, k, t)), summ)
+    return None, summ
+
+def accept_family(ctx):
+    for fn in ("quso", "puso", "qubo", "pubo"):
+        for ty, T in ACCEPT_TS:
+            for io in (True, False):
+                case = accept_case(fn, ty, T, io, ctx.rng.randrange(2 ** 31))
+                bad, summ = run_accept(case)
+                ctx.case(case, True)
+                ctx.count("accept:%s:%s" % (fn, ty))
+                if bad or (fn == "quso" and io):
+                    ctx.notes.append("accept (supporting statistical clause, not proof) %s" % summ)
+                if bad:
+                    ctx.violation(bad[0], case, bad[1])
+
 def gen_kernel(rng, maxdur):
     c = c11.gen_kernel_case(rng)
     dur = rng.choice([20, 40, maxdur, rng.randint(1, maxdur)])
@@ -372,12 +543,14 @@ def zero_oracle(case, canon, res, L):
         st = {L.ident(k): int(v) for k, v in r.state.items()}
         if Fraction(r.value) > e0:
             return ("C12:zero-temperature-value-increased",
-                    "result %d: value %s > value %s of the supplied initial state %s (schedule of %d zeros, in_order=%s)%s"
-                    % (idx, r.value, e0, x0, sweeps, case["in_order"], how))
+                    "result %d: value %s > value %s of the supplied initial state %s (schedule of %d zeros, in_order=%s)%s%s"
+                    % (idx, r.value, e0, x0, sweeps, case["in_order"], how,
+                       " [model %s]" % describe(case) if case.get("spell") else ""))
         if set(st) != set(x0):
             continue        # domain questions are C11's
         if Fraction(r.value) != energy(poly, st):
-            return ("C12:value", "result %d: value %s but the model evaluates to %s at its state" % (idx, r.value, energy(poly, st)))
+            return ("C12:value", "result %d: value %s but the model%s evaluates to %s at its state %s"
+                    % (idx, r.value, " " + describe(case) if case.get("spell") else "", energy(poly, st), st))
         if strict_min and st != x0:
             return ("C12:zero-temperature-left-strict-local-minimum",
                     "result %d: the supplied initial state %s is a strict local minimum (every single flip raises the "
@@ -386,6 +559,10 @@ def zero_oracle(case, canon, res, L):
         if sweeps == 0 and st != x0:
             return ("C12:empty-schedule-moved", "result %d: state %s differs from the initial state %s with an empty schedule"
                     % (idx, st, x0))
+        if case["c12"] == "xeq-zero" and case["in_order"] and not perm_sweep_ok(poly, x0, st, sweeps, spin):
+            return ("C12:in-order-zero-temperature-sweep",
+                    "result %d: final state %s of the model %s is not reachable from %s by %d sweep(s) that visit the variables "
+                    "in any one fixed order and flip when dE < 0, keep when dE > 0" % (idx, st, describe(case), x0, sweeps))
         if matrix_in_order:
             order = sorted(x0)
             if case["c12"] == "tiefree":
@@ -710,13 +887,27 @@ def process(ctx, cases):
             ctx.count("mapping:%s:%s:%s" % (fam, c["mapping"]["how"], c["mapping"]["style"]))
         if Ts is not None:
             ctx.count("sweeps:%s" % ("0" if not Ts else "1-9" if len(Ts) < 10 else "10-39" if len(Ts) < 40 else "40+"))
-        if canon != m:
+        if c.get("spell"):
+            ctx.count("xeq:%s:%s" % (c["kind"], "model+oracle" if c11.model_is_label_parametric(c) else "oracle-only"))
+            ctx.count("xeq:monomials-stored-under-two-keys", c11.xeq_collisions(c))
+        if Ts is not None and c["sched"].get("types"):
+            for ty in set(c["sched"]["types"]):
+                ctx.count("schedtype:entry:" + ty)
+            ctx.count("schedtype:container:" + (c["sched"].get("container") or "list/tuple"))
+        if c.get("spell"):
+            if c11.model_is_label_parametric(c) and c11.xeq_view(canon) != c11.xeq_view(m):
+                ctx.diff(fam, c, canon, m)
+        elif canon != m:
             ctx.diff("replay" if fam == "replay" else fam, c, canon, m)
         if "results" in canon:
             ctx.traces += 1
         bad = None
-        if fam in ("zero", "tiefree"):
+        if fam in ("zero", "tiefree", "xeq-zero"):
             bad = zero_oracle(c, canon, res, L)
+        elif fam == "xeq-replay":
+            bad = value_oracle(c, canon, res, L)
+        elif fam == "schedtype" and "err" not in canon:
+            bad = schedtype_oracle(c)
         elif "err" in canon:
             bad = ("C12:exception", "anneal_%s raised %s (%s) on a valid call" % (c["fn"], canon["err"], detail))
         if bad:
@@ -758,7 +949,11 @@ def check(ctx):
     kernel_cases = [gen_kernel(rng, maxdur) for _ in range(ctx.scale(400, 3000))]
     map_cases = ([gen_replay_mapping(rng, maxdur) for _ in range(ctx.scale(500, 4000))] +
                  [gen_zero_mapping(rng) for _ in range(ctx.scale(900, 7000))])
-    process(ctx, replay_cases + zero_cases + tie_cases + kernel_cases + map_cases)
+    xeq_cases = ([gen_xeq(rng, True) for _ in range(ctx.scale(700, 6000))] +
+                 [gen_xeq(rng, False) for _ in range(ctx.scale(300, 3000))])
+    st_cases = [gen_schedtype(rng, maxdur) for _ in range(ctx.scale(600, 6000))]
+    process(ctx, replay_cases + zero_cases + tie_cases + kernel_cases + map_cases + xeq_cases + st_cases)
+    accept_family(ctx)
     repro_family(ctx, replay_cases[:ctx.scale(400, 3500)] + map_cases[:ctx.scale(100, 500)], replay_cases)
     reheat_family(ctx, ctx.scale(10, 150), 400)
     if ctx.tier == "thorough":
@@ -788,12 +983,18 @@ def search(ctx):
         if bad:
             ctx.violation(bad[0], dict(c, c12="repro", others=[]), bad[1])
     extra += ([gen_zero(ctx.rng) for _ in range(600)] + [gen_tiefree(ctx.rng) for _ in range(600)] +
-              [gen_zero_mapping(ctx.rng) for _ in range(600)])
+              [gen_zero_mapping(ctx.rng) for _ in range(600)] + [gen_xeq(ctx.rng, True) for _ in range(600)])
     for c in extra:
         canon, res, obj, L, _sd, call, detail = run_impl(c)
         bad = zero_oracle(c, canon, res, L)
         if bad:
             ctx.violation(bad[0], c, bad[1])
+    for d in ctx.diffs[:40]:
+        c = d["case"]
+        if c.get("family") == "anneal" and c["sched"].get("types") and not ctx.violations:
+            bad = schedtype_oracle(c)
+            if bad:
+                ctx.violation(bad[0], c, bad[1])
     if not ctx.violations:
         chi2_family(ctx, 6000)
 
@@ -805,6 +1006,11 @@ def replay(ctx, payload):
     fam = c.get("c12")
     if fam == "chi2":
         bad, summ = run_chi2(c)
+        ctx.case(c, True)
+        if bad:
+            ctx.violation(bad[0], c, bad[1])
+    elif fam == "accept":
+        bad, summ = run_accept(c)
         ctx.case(c, True)
         if bad:
             ctx.violation(bad[0], c, bad[1])
